@@ -208,7 +208,7 @@ theorem stream_extent_recovery (pre body rest startEol endEol : Bytes)
       = .ok { start := start, len := body.length, after := start + body.length + endEol.length + 9 } := by
     unfold recoverExtent
     rw [hdropS, hfind]
-    simp only [htrim]
+    simp only [htrim, Bool.false_eq_true, if_false]
     congr 2
     omega
   refine ⟨?_, ?_⟩
